@@ -17,10 +17,16 @@ import (
 //        in which the results arrive; without a failure every entry is populated
 //   C08  the fetch terminates (no deadlock, no crash of the process)
 func VerifMultiFetch() {
-	vrt.Mode("recvoracle", 1)
 	n := 1 + vrt.Choose("entries", vrt.Param("maxentries", 3))
 	failAt := vrt.Choose("failAt", n+1) - 1 // -1: every request succeeds
 	ebFails := vrt.Choose("eblockFails", 2) == 1
+	if many := vrt.Param("many", 0); many > 0 {
+		// a full entry block (more entries than workers and than any fixed queue): no failure, the
+		// deterministic schedule only; what is decided is termination and completeness
+		n, failAt, ebFails = many, -1, false
+	} else {
+		vrt.Mode("recvoracle", 1)
+	}
 	chain := config.TransactionChain
 	eb := new(factom.EBlock)
 	eb.ChainID = &chain
@@ -41,6 +47,9 @@ func VerifMultiFetch() {
 	})
 	vrt.Stub(fxFactomEntry, func(e *factom.Entry, c context.Context, cl *factom.Client) error {
 		i := int(e.Hash[31]) - 0x20
+		if i < 0 {
+			i += 256
+		}
 		vrt.Yield() // the request is in flight: another worker may finish first
 		if i == failAt {
 			return upstream
